@@ -75,7 +75,8 @@ CancelOne(S, id) ==
 RECURSIVE CancelSeq(_, _)
 CancelSeq(S, ids) == IF ids = <<>> THEN S ELSE CancelSeq(CancelOne(S, Head(ids)), Tail(ids))
 
-\* Position._on_executed_order, backtest branch: the order of the tests is the code's
+\* Position._on_executed_order, backtest branch: the order of the tests is the code's ("roclose" is the branch for
+\* an oversize reduce-only order; since Order.execute clamps such an order first it is only used as a step label)
 Kind(q0, sq, ro) ==
   IF q0 = 0 THEN "open"
   ELSE IF q0 + sq = 0 THEN "close"
@@ -83,14 +84,18 @@ Kind(q0, sq, ro) ==
   ELSE IF Abs(sq) > Abs(q0) THEN (IF ro THEN "roclose" ELSE "flip")
   ELSE "red"
 
-\* Order.execute: guard, status, trade record, reserved row, fee, position, strategy hook
+\* Order.execute: guard, reduce-only clamp, status, trade record, reserved row, fee, position, strategy hook
 ExecOne(S, id) ==
-  LET o == S.ord[id] IN
-  IF o.st # "A" THEN S ELSE
-  LET s == o.sym
-      sq == Sgn(o.side) * o.q
+  LET o0 == S.ord[id] IN
+  IF o0.st # "A" THEN S ELSE
+  LET s == o0.sym
       q0 == S.pq[s]
       e0 == S.entry[s]
+      \* a reduce-only order never fills more than the open position: its quantity is clamped before anything is
+      \* booked (Order.execute, simulation only), so fee, trade log and order record carry the filled quantity
+      clamp == o0.ro /\ q0 * Sgn(o0.side) < 0 /\ o0.q > Abs(q0)
+      o == IF clamp THEN [o0 EXCEPT !.q = Abs(q0)] ELSE o0
+      sq == Sgn(o.side) * o.q
       fee == Norm(o.q * o.p * FeeNum, FeeDen)                                        \* charge_fee(qty * price)
       kind == Kind(q0, sq, o.ro)
       closeQty == CASE kind = "red" -> o.q
@@ -107,7 +112,7 @@ ExecOne(S, id) ==
               [] kind = "inc" -> RDivI(RAdd(RI(o.q * o.p), RMulI(e0, Abs(q0))), o.q + Abs(q0))  \* estimate_average_price
               [] OTHER -> e0
       closesTrade == kind \in {"close", "roclose", "flip"}
-      S1 == Release([S EXCEPT !.ord[id].st = "E",
+      S1 == Release([S EXCEPT !.ord[id] = [o EXCEPT !.st = "E"],
                               !.temp[s] = IF closesTrade THEN <<>> ELSE Append(@, id),
                               !.trades = IF closesTrade THEN Append(@, Append(S.temp[s], id)) ELSE @,
                               !.wallet = RAdd(RSub(@, fee), realised),
@@ -276,9 +281,11 @@ AvgCostStep ==
             q0 == st.pq[s]  q1 == st'.pq[s]
             closed == RefClosed(q0, q1)
             real == IF closed = 0 THEN RI(0) ELSE RMulI(RSub(RI(o.p), st.entry[s]), IF q0 > 0 THEN closed ELSE -closed)
+            \* the fee is charged on what is filled: a reduce-only order against the position fills at most its size
+            filled == IF o.ro /\ q0 * sq < 0 THEN Min2(o.q, Abs(q0)) ELSE o.q
         IN /\ q1 = RefQty(q0, sq, o.ro)
            /\ RefEntryOK(q0, st.entry[s], q1, st'.entry[s], o.p)
-           /\ st'.wallet = RAdd(RSub(st.wallet, Norm(o.q * o.p * FeeNum, FeeDen)), real)
+           /\ st'.wallet = RAdd(RSub(st.wallet, Norm(filled * o.p * FeeNum, FeeDen)), real)
            /\ \A x \in Syms \ {s} : st'.pq[x] = st.pq[x] /\ st'.entry[x] = st.entry[x]]_vars
 RejectIff ==
   [][Last.op = "submit" =>
@@ -293,7 +300,11 @@ FinalIsFinal ==
   [][/\ Len(st'.ord) >= Len(st.ord)
      /\ \A i \in 1..Len(st.ord) :
            /\ st.ord[i].st # "A" => st'.ord[i] = st.ord[i]
-           /\ [st'.ord[i] EXCEPT !.st = "A"] = [st.ord[i] EXCEPT !.st = "A"]]_vars
+           \* an active order changes nothing but its status - except that the fill of a reduce-only order records the
+           \* filled quantity (never more than ordered) at the very transition to EXECUTED
+           /\ [st'.ord[i] EXCEPT !.st = "A", !.q = 0] = [st.ord[i] EXCEPT !.st = "A", !.q = 0]
+           /\ (st'.ord[i].q = st.ord[i].q
+               \/ (st.ord[i].ro /\ st'.ord[i].st = "E" /\ st'.ord[i].q < st.ord[i].q /\ st'.ord[i].q > 0))]_vars
 FinalOpsAreNoOps ==
   [][/\ (Last.op \in {"exec", "cancel"} /\ st.ord[Last.id].st # "A") => Acct(st') = Acct(st) /\ st'.cur = st.cur
      /\ (Last.op = "flush" /\ \A i \in SeqSet(st.pending) : st.ord[i].st # "A") => Acct(st') = Acct(st)
